@@ -218,9 +218,9 @@ func init() {
 	c02 = append(c02, HarnessSpec{Pkg: ix, Func: "ZZ_C02_Search", Solver: "cvc5", Desc: "time variable of a sub-query",
 		Quick:  tier(map[string]int{"queryfrom": 10, "queryforms": 1, "sortings": 2, "restricts": 1, "indexfiles": 2, "limits": 1, "skips": 1}),
 		Bounds: "`@sub:id:S ftime:@sub:ftime@+D:` with symbolic S and D over 1..2 index files with different reference times: the sub-query's stream may live in the other file"})
-	for f, n := range []string{"[-]chost:<IPv4 literal>", "[-]shost:<IPv6 literal>", "[-]chost:@sub:chost@ (host of a sub-query's stream)", "[-]shost:@sub:shost@"} {
+	for f, n := range []string{"[-]chost:<IPv4 literal>", "[-]shost:<IPv6 literal>", "[-]chost:@sub:chost@ (host of a sub-query's stream)", "[-]shost:@sub:shost@", "[-]shost:10.0.1.H/mask (last byte of address and of mask symbolic)"} {
 		c02 = append(c02, HarnessSpec{Pkg: ix, Func: "ZZ_C02_Search", Solver: "cvc5", Desc: "host filter: " + n,
-			Quick:  tier(map[string]int{"queryfrom": 11 + f, "queryforms": 1, "sortings": 2, "limits": 2, "skips": 1, "restricts": 1, "indexfiles": 2, "mixed": 1}),
+			Quick:  tier(map[string]int{"queryfrom": []int{11, 12, 13, 14, 15}[f], "queryforms": 1, "sortings": 2, "limits": 2, "skips": 1, "restricts": 1, "indexfiles": 2, "mixed": 1}),
 			Bounds: "streams of both address families (stream 2 is an IPv6 one, in its own host group; two server addresses among the IPv4 ones) over 1..2 index files; the literal's last byte (0..5), the sub-query's stream id (0..3) symbolic, plain and inverted; 2 sortings, limits 1,2"})
 	}
 	for k, n := range []string{"id", "cbytes", "sbytes", "ftime", "ltime", "chost", "shost", "cport", "sport"} {
@@ -230,7 +230,7 @@ func init() {
 	}
 	registry["C02"] = CheckSpec{Property: "C02", Harnesses: c02,
 		Assumptions: []string{"queries are given in normal form (ConditionsSet built directly; the parser side is C03)", "stream population: fixed concrete streams written by the real writer; what varies symbolically are the query constants, tag match bits and the id restriction", "oracle: filter by the harness's own reading of the query on its own stream records, rank by the sort key with ties in any order, page, more <=> matches beyond the page"},
-		Outside: []string{"grouping", "sub-queries feeding variables other than the time-variable and the host-variable forms", "data conditions (C04)", "more than 4 streams / 2 files", "host filters with network masks, chost:@shost comparisons within one stream"},
+		Outside: []string{"grouping", "sub-queries feeding variables other than the time-variable and the host-variable forms", "data conditions (C04)", "more than 4 streams / 2 files", "host filters with masks other than in the last byte, chost:@shost comparisons within one stream"},
 	}
 
 	mg := "internal/index/manager"
